@@ -688,6 +688,9 @@ func (p *Printer) emit(t *Term) {
 		body = fmt.Sprintf("(%s RNE %s)", t.op, strings.Join(as, " "))
 	case "fpconst":
 		body = t.name
+	case "durcall":
+		// Duration.Hours/Minutes/Seconds(d): args = [d, the FP term the real stdlib code computes for d]
+		body = as[1]
 	default:
 		body = fmt.Sprintf("(%s %s)", t.op, strings.Join(as, " "))
 	}
